@@ -128,6 +128,20 @@ def run(rep, tier, seed):
             opts = [(65804, 1), (65804, 0), (rnd.choice([1, 60000]), 2)]                # option numbers beyond 100000
         payload = None if rnd.random() < 0.7 else b''
         pkt, st = P.coap(rnd, opts=opts, payload=payload)
+        if i % 5 == 4 and st['options']:
+            # the same option number again (delta 0) with exactly the value of an EARLIER occurrence (Uri-Path a / a, a query repeated, an
+            # empty option twice): the message is rebuilt with those repeats
+            o0 = list(st['options'])
+            first_d, first_l, first_v = o0[0]
+            rep_ = [(first_d, first_v)] + [(0, rnd.choice([first_v, rnd.randbytes(len(first_v)), first_v])) for _ in range(rnd.randint(1, 3))] + ([(o0[1][0], o0[1][2]), (0, o0[1][2])] if len(o0) > 1 else [])
+            b_ = pkt[:4 + st['tkl']]
+            for d_, v_ in rep_:
+                dn, de = P.ext(d_)
+                ln, le = P.ext(len(v_))
+                b_ += bytes([dn << 4 | ln]) + de + le + v_
+            pkt = b_ + ((b'\xff' + st['payload']) if st['payload'] else b'')
+            opts = [(d_, len(v_)) for d_, v_ in rep_]
+            rep.hist['options-repeated-with-equal-values'] = rep.hist.get('options-repeated-with-equal-values', 0) + 1
         bits = b2s(pkt)
         buf = Buffer(pkt, len(pkt) * 8)
         # (1) semantic parse
